@@ -1,4 +1,5 @@
 # drives HoppingParams.fn2gsm_time of the real gsm_shared.py:  gt.py FN -> t1 t2 t3 tc
+from excname import exc_name
 import sys
 sys.path.insert(0, sys.argv[1])
 import gsm_shared
@@ -10,4 +11,4 @@ for line in sys.stdin:
         else:
             print("bad-op")
     except Exception as e:
-        print("EXC %s" % type(e).__name__)
+        print("EXC %s" % exc_name(e))
